@@ -272,6 +272,8 @@ def xz_faults(ctx, D, lz, bases, table, cat, start=0, cli=None, heavy=False):
             # ---------------- the file cut at every length inside the field
             for i in range(ln):
                 w = "before" if i == 0 else ("inside" if i < ln - 1 or ln == 2 else "last")
+                if f == "s.padding" and i > 0 and i % 4 == 0:
+                    w = "aligned"          # whole zero words remain: a shorter valid file
                 cut = data[:off + i]
                 r2, o2, _, _ = run_code(cut)
                 adm_w = w if J.admissible(bk, "trunc", s, b, f, w) is not None else "inside"
